@@ -6,6 +6,7 @@
 #include <atomic>
 #include <cstdio>
 #include <cstdlib>
+#include <cstdarg>
 #include <cstring>
 #include <csetjmp>
 #include <cerrno>
@@ -32,6 +33,9 @@ void *__real_memset(void *, int, size_t); int __real_memcmp(const void *, const 
 char *__real_strcpy(char *, const char *); char *__real_strncpy(char *, const char *, size_t);
 char *__real_strstr(const char *, const char *);
 int __real_idn2_to_ascii_8z(const char *, char **, int);
+int __real_vsnprintf(char *, size_t, const char *, va_list); int __real_vsprintf(char *, const char *, va_list);
+char *__real_strcat(char *, const char *); char *__real_strncat(char *, const char *, size_t); char *__real_stpcpy(char *, const char *);
+char *__real_strtok_r(char *, const char *, char **); char *__real_strsep(char **, const char *);
 char *__real_strtok(char *, const char *); char *__real_strerror(int); int __real_rand(void); void __real_srand(unsigned);
 char *__real_setlocale(int, const char *); char *__real_getenv(const char *);
 extern char __start_eavdata[] __attribute__((weak)); extern char __stop_eavdata[] __attribute__((weak));
@@ -531,6 +535,33 @@ int __wrap_idn2_to_ascii_8z(const char *in, char **out, int flags) {
     if (*out && *out != before) { size_t n = __real_strlen(*out) + 1; block_add(*out, n); if (active() && g_mode == 2) { RtGuard rg_; for (size_t i = 0; i < n; i++) check_byte(t_tid, (uintptr_t)*out + i, true, (uint32_t)(PC - g_base)); } }
     return rc;
 }
+
+// formatted output and concatenation into caller-supplied buffers (a static buffer written through these is shared state)
+int __wrap_vsnprintf(char *d, size_t n, const char *f, va_list ap) {
+    int r = __real_vsnprintf(d, n, f, ap);
+    if (d && n) on_range(d, (size_t)(r < 0 ? 0 : ((size_t)r + 1 < n ? (size_t)r + 1 : n)), true, PC);
+    return r;
+}
+int __wrap_snprintf(char *d, size_t n, const char *f, ...) {
+    va_list ap; va_start(ap, f); int r = __real_vsnprintf(d, n, f, ap); va_end(ap);
+    if (d && n) on_range(d, (size_t)(r < 0 ? 0 : ((size_t)r + 1 < n ? (size_t)r + 1 : n)), true, PC);
+    return r;
+}
+int __wrap_vsprintf(char *d, const char *f, va_list ap) { int r = __real_vsprintf(d, f, ap); if (r >= 0) on_range(d, (size_t)r + 1, true, PC); return r; }
+int __wrap_sprintf(char *d, const char *f, ...) {
+    va_list ap; va_start(ap, f); int r = __real_vsprintf(d, f, ap); va_end(ap);
+    if (r >= 0) on_range(d, (size_t)r + 1, true, PC);
+    return r;
+}
+char *__wrap_strcat(char *d, const char *s) { size_t dl = __real_strlen(d), sl = __real_strlen(s); on_range(d, dl + 1, false, PC); on_range(s, sl + 1, false, PC); on_range(d + dl, sl + 1, true, PC); return __real_strcat(d, s); }
+char *__wrap_strncat(char *d, const char *s, size_t n) { size_t dl = __real_strlen(d), sl = __real_strlen(s); if (sl > n) sl = n; on_range(d, dl + 1, false, PC); on_range(s, sl, false, PC); on_range(d + dl, sl + 1, true, PC); return __real_strncat(d, s, n); }
+char *__wrap_stpcpy(char *d, const char *s) { size_t n = __real_strlen(s) + 1; on_range(s, n, false, PC); on_range(d, n, true, PC); return __real_stpcpy(d, s); }
+char *__wrap_strtok_r(char *s, const char *d, char **sv) {
+    char *b = s ? s : (sv ? *sv : nullptr);
+    if (b) on_range(b, __real_strlen(b) + 1, true, PC);        // strtok_r writes NULs into its input
+    return __real_strtok_r(s, d, sv);
+}
+char *__wrap_strsep(char **sp, const char *d) { if (sp && *sp) on_range(*sp, __real_strlen(*sp) + 1, true, PC); return __real_strsep(sp, d); }
 
 // libc interfaces with hidden process-global state: a call is a write to that state
 char *__wrap_strtok(char *s, const char *d) { on_pseudo_write(0, PC); return __real_strtok(s, d); }
